@@ -11,17 +11,14 @@ Ltac Zify.zify_post_hook ::= Z.div_mod_to_equations.
 
 Definition within (c : cfg) (p : Z) : Prop := c_min c <= p <= c_max c.
 
-Lemma i8_small : forall z, -128 <= z <= 127 -> i8 z = z.
-Proof. intros z H. apply i8_id. exact H. Qed.
-
 Lemma poll_inc_within : forall c p, cfg_ok c -> within c p -> within c (poll_inc c p).
 Proof.
-  intros c p C W. unfold cfg_ok, within in *. unfold poll_inc. rewrite i8_small; lia.
+  intros c p C W. unfold cfg_ok, within in *. unfold poll_inc, sat_i8. lia.
 Qed.
 
 Lemma poll_dec_within : forall c p, cfg_ok c -> within c p -> within c (poll_dec c p).
 Proof.
-  intros c p C W. unfold cfg_ok, within in *. unfold poll_dec. rewrite i8_small; lia.
+  intros c p C W. unfold cfg_ok, within in *. unfold poll_dec, sat_i8. lia.
 Qed.
 
 Definition desire_ok (c : cfg) (ph : dphase) : Prop := within c (get_desired_poll c ph).
